@@ -1,0 +1,10 @@
+//go:build !verif
+
+package risc
+
+// verifHooks is empty unless the simulator is built with -tags verif.
+type verifHooks struct{}
+
+// VerifTick is called once per iteration of every loop of every Run. It does
+// nothing unless the simulator is built with -tags verif.
+func (ctx *Context) VerifTick(cycle int) {}
